@@ -80,6 +80,21 @@ func genC08Cond(t *rapid.T, g *kit.TxnGen, tb kit.Table, rows kit.Rows, pool *ki
 			}
 		}
 		return kit.Cond{Col: "m", Fn: rapid.SampledFrom([]string{"includes", "includes", "excludes", "=="}).Draw(t, "mfn"), Val: v}
+	case 2:
+		// a set condition built from part of a row's set (plus, sometimes, an element nobody has)
+		if c := tb.Col("set"); c != nil && len(uuids) > 0 {
+			src := rows[rapid.SampledFrom(uuids).Draw(t, "setsrc")]["set"]
+			v := kit.EmptySet()
+			for _, a := range src.K {
+				if rapid.Bool().Draw(t, "setelem") {
+					v = v.With(a)
+				}
+			}
+			if rapid.IntRange(0, 3).Draw(t, "setforeign") == 0 {
+				v = v.With(kit.GenAtom(t, c.Key, &kit.Pool{Big: true}))
+			}
+			return kit.Cond{Col: "set", Fn: rapid.SampledFrom([]string{"includes", "includes", "excludes", "==", "!="}).Draw(t, "setfn"), Val: v}
+		}
 	}
 	return g.GenCond(t, tb, rows, pool)
 }
@@ -92,6 +107,10 @@ func TestC08(t *testing.T) {
 		rows := kit.Rows{}
 		n := rapid.IntRange(0, 12).Draw(t, "nrows")
 		pool := &kit.Pool{RowUUIDs: map[string][]string{}}
+		big := rapid.IntRange(0, 19).Draw(t, "big") == 0
+		if big {
+			kit.Label("C08", "big-sets")
+		}
 		for i := 0; i < n; i++ {
 			r := genIndexRow(t, tb)
 			r["s0"] = kit.Scalar(kit.Str(fmt.Sprintf("n%d", i)))
@@ -103,6 +122,14 @@ func TestC08(t *testing.T) {
 						r[c.Name] = src[c.Name].Clone()
 					}
 				}
+			}
+			// one case in eight: sets of dozens of elements (size thresholds of the evaluation)
+			if big && tb.Col("set") != nil && rapid.IntRange(0, 2).Draw(t, "bigset") > 0 {
+				v := kit.EmptySet()
+				for j, m := 0, rapid.SampledFrom([]int{17, 31, 32, 33, 40, 64, 65, 100}).Draw(t, "bigsetlen"); j < m; j++ {
+					v = v.With(kit.GenAtom(t, tb.Col("set").Key, &kit.Pool{Big: true}))
+				}
+				r["set"] = v
 			}
 			rows[kit.MkUUID(i+1)] = r
 		}
@@ -218,6 +245,25 @@ func TestC08(t *testing.T) {
 				if err := rc.Create(u, w.ModelFromRow(tb.Name, u, first), true); err != nil {
 					kit.Fail(t, "C08", "cache.apply-error", kase, "config %s: Create(%s): %v", cfg.name, u, err)
 				}
+			}
+			// a checked Create the cache has to refuse (the row repeats the unique s0 of a cached row,
+			// its other columns are fresh: with a schema index over several columns listed first,
+			// only a later index notices): nothing of it may stay behind
+			hasS0Index := false
+			for _, idx := range cfg.schema {
+				hasS0Index = hasS0Index || (len(idx) == 1 && idx[0] == "s0")
+			}
+			if hasS0Index && len(order) > 0 && rapid.IntRange(0, 2).Draw(t, "refusedcreate") == 0 {
+				victim := rows[order[0]]
+				if e, ok := earlier[order[0]]; ok {
+					victim = e
+				}
+				clash := genIndexRow(t, tb)
+				clash["s0"] = victim["s0"].Clone()
+				if err := rc.Create(kit.MkUUID(990001), w.ModelFromRow(tb.Name, kit.MkUUID(990001), clash), true); err == nil {
+					kit.Fail(t, "C08", "cache.apply-error", kase, "config %s: a checked Create of a second row with s0=%s was accepted", cfg.name, victim["s0"].Key())
+				}
+				kit.Label("C08", "refused-create-before-the-queries")
 			}
 			updOrder := rapid.Permutation(kit.SortedUUIDs(rows)).Draw(t, "updateorder")
 			for _, u := range updOrder {
